@@ -66,18 +66,6 @@ TFiles == /\ IsEvent("Files")
 \* C06
 WireOK(e)     == e.ok /\ LET j == Canon(e.json) S == Canon(e.sch) IN Validates(j, S, doc) /\ Described(j, S, doc)
 ContractOK(e) == LET j == Enc(schema, e.val) S == Canon(e.sch) IN Validates(j, S, doc) /\ Described(j, S, doc)
-OneofCfgReachable(s, top) == \E n \in Reach(s, {top}, {}) : \E o \in Range(MsgByName(s, n).oneofs) : o.hasCfg
-\* a flattened child that itself flattens (or has a flattened oneof): the document flattens one level only
-NestedFlatten(s, top) ==
-  \E n \in Reach(s, {top}, {}) : \E f \in Range(MsgByName(s, n).fields) :
-     /\ f.ann.flatten /\ HasMsg(s, f.ref)
-     /\ LET C == MsgByName(s, f.ref) IN (\E g \in Range(C.fields) : g.ann.flatten) \/ (\E o \in Range(C.oneofs) : o.hasCfg)
-\* well-known types whose proto3 JSON form is a scalar, not an object
-WktScalarLike == {"google.protobuf.Duration", "google.protobuf.FieldMask", "google.protobuf.StringValue", "google.protobuf.BytesValue",
-                  "google.protobuf.Int32Value", "google.protobuf.Int64Value", "google.protobuf.UInt32Value", "google.protobuf.UInt64Value",
-                  "google.protobuf.FloatValue", "google.protobuf.DoubleValue", "google.protobuf.BoolValue", "google.protobuf.Value",
-                  "google.protobuf.ListValue"}
-WktScalarReachable(s, top) == \E n \in Reach(s, {top}, {}) : \E f \in Range(MsgByName(s, n).fields) : f.kind = "message" /\ f.ref \in WktScalarLike
 CheckHow(e) ==
   IF e.hasVal /\ ~ContractOK(e)
   THEN (IF "D_openapi_wkt_as_objects" \in Dev /\ WktScalarReachable(schema, e.val.type) THEN "D_openapi_wkt_as_objects"
